@@ -15,7 +15,7 @@ Definition unmodelled (b : N) : bool :=
 
 (* the builtins observed on the implementation only (lib/props/c06.py reads this list) *)
 Definition unmodelled_names : list string :=
-  [ "append"; "list-ref"; "list-tail"; "reverse"; "acos"; "asin"; "atan"; "cos"; "exp"; "log"; "sin"; "sqrt"; "tan"; "term-rows"; "term-cols"; "time-utc"; "boolean?"; "char?"; "equal?"; "list?"; "port?"; "string?"; "number?"; "complex?"; "real?"; "rational?"; "integer?"; "random-integer"; "random-real"; "random-signed"; "make-vector"; "vector"; "vector-length"; "vector->list"; "list->vector"; "vector-ref"; "vector-set!"; "vector-fill!"; "vector-copy"; "vector-copy!" ]%string.
+  [ "acos"; "asin"; "atan"; "cos"; "exp"; "log"; "sin"; "sqrt"; "tan"; "term-rows"; "term-cols"; "time-utc"; "random-integer"; "random-real"; "random-signed" ]%string.
 
 Definition ids : list N := map N.of_nat (seq 0 (length Gen.Builtins.builtin_table)).
 
